@@ -69,11 +69,18 @@ func (d domain) values(t *Type) []Value {
 		el := d.values(t.Elem)
 		out = append(out, &ListV{T: t})
 		out = append(out, &ListV{T: t, El: []Value{el[0]}})
+		out = append(out, &ListV{T: t, El: []Value{el[1%len(el)]}})
 		three := &ListV{T: t}
 		for i := 0; i < 3; i++ {
 			three.El = append(three.El, el[(i+1)%len(el)])
 		}
 		out = append(out, three)
+		// same length, differs only in the last element
+		three2 := &ListV{T: t, El: append([]Value{}, three.El...)}
+		three2.El[2] = el[(3+2)%len(el)]
+		if !Equal(three2, three) {
+			out = append(out, three2)
+		}
 	case KStruct:
 		out = append(out, DefaultValue(t))
 		s := &StructV{T: t}
@@ -517,27 +524,39 @@ func runC01(tier string) int {
 	if tier == "thorough" {
 		d, levels = domFull, []uint{0, 1, 2}
 	}
-	cells := genCells(d)
-	if f := os.Getenv("VERIF_ONLY"); f != "" { // development aid: restrict to keys containing f (the run is then not exhaustive)
-		var sel []*batch.Case
-		for _, cs := range cells {
-			if strings.Contains(cs.Key, f) {
-				sel = append(sel, cs)
-			}
-		}
-		cells = sel
-		c.Capped("VERIF_ONLY=" + f)
-	}
-	st := batch.Run(c, cells, batch.Opts{Prop: "C01", Family: "cell", Levels: levels, BatchSize: 40})
-	c.Set("family_cells", st)
-	total := st
+	fams := []struct {
+		name  string
+		cases []*batch.Case
+	}{{"stmt", genStmts()}, {"func", genFuncs()}, {"cell", genCells(d)}}
+	var total batch.Stats
 	distinct := map[string]bool{}
-	for _, cs := range cells {
-		distinct[cs.Key] = true
-	}
-	if len(cells) > 0 {
-		c.Sample(map[string]any{"family": "cell", "case": cells[len(cells)/3].Desc})
-		c.Sample(map[string]any{"family": "cell", "case": cells[2*len(cells)/3].Desc})
+	for _, f := range fams {
+		cases := f.cases
+		if flt := os.Getenv("VERIF_ONLY"); flt != "" { // development aid: restrict to keys containing flt (the run is then not exhaustive)
+			var sel []*batch.Case
+			for _, cs := range cases {
+				if strings.Contains(f.name+":"+cs.Key, flt) {
+					sel = append(sel, cs)
+				}
+			}
+			cases = sel
+			c.Capped("VERIF_ONLY=" + flt)
+		}
+		st := batch.Run(c, cases, batch.Opts{Prop: "C01", Family: f.name, Levels: levels, BatchSize: 40})
+		c.Set("family_"+f.name, st)
+		total.Cases += st.Cases
+		total.Unspecified += st.Unspecified
+		total.Solo += st.Solo
+		total.Programs += st.Programs
+		total.Builds += st.Builds
+		total.Runs += st.Runs
+		total.Failed += st.Failed
+		for _, cs := range cases {
+			distinct[f.name+":"+cs.Key] = true
+		}
+		if len(cases) > 0 {
+			c.Sample(map[string]any{"family": f.name, "case": cases[len(cases)/3].Desc, "source": (&Program{Main: cases[len(cases)/3].Body}).Source()})
+		}
 	}
 	c.Set("evaluations", total.Cases)
 	c.Set("states", total.Cases-total.Unspecified)
